@@ -164,6 +164,35 @@ def cursor_correspondence(res, tier):
             res.diverge("seekcursor", d.lines[i], out[i], impl, ["C02"])
 
 
+def grown_elsewhere(res, tier, cfgs, seen):
+    """a handle parked at a position (end of file on a cluster boundary included) while the file grows through
+    another, path-based call; then the parked handle writes without seeking: its cached cluster cursor is stale.
+    Judged like every history: byte-buffer reference, frame, independent checker on the closed image."""
+    for ci, cfg0 in enumerate(cfgs[:2] + cfgs[5:6] if tier == "quick" else cfgs):
+        cfg = dict(cfg0, seed=7000 + ci, fill_free=True)
+        bpc = specfat.Geom(**cfg["geom"]).bpc if cfg["fmt"] == "spec" else (512 if cfg["type"] != 16 else 1024)
+        if bpc > 8192:
+            continue
+        sizes = (bpc, 2 * bpc, 2 * bpc + 5) if tier == "quick" else (1, bpc, 2 * bpc, 2 * bpc + 5, 3 * bpc)
+        for size in sizes:
+            for pos in sorted({0, size, size - 1, bpc, size // 2}):
+                if pos < 0 or pos > size:
+                    continue
+                for m, n in ((1, bpc), (bpc, 1), (2 * bpc + 3, 3 * bpc + 1)) if tier == "quick" else \
+                        [(a, b) for a in (1, bpc, 2 * bpc + 3) for b in (1, bpc, 3 * bpc + 1)]:
+                    ops = [["writebytes", "/F0.BIN", 1, size], ["writebytes", "/OTHER.BIN", 9, bpc + 1],
+                           ["open", "h1", "/F0.BIN", "r+"], ["seek", "h1", pos, 0], ["appendbytes", "/F0.BIN", 2, m],
+                           ["write", "h1", 3, n], ["tell", "h1"], ["close", "h1"], ["readbytes", "/F0.BIN"],
+                           ["readbytes", "/OTHER.BIN"]]
+                    c = dict(cfg)
+                    c["_paths"] = ["/F0.BIN", "/OTHER.BIN"]
+                    findings, stats = histcheck.check_history(c, ops, remount_every=0, io_frame=True)
+                    res.case("grown-elsewhere:cfg%d:%s:%s" % (ci, "eof" if pos == size else "in", "aligned" if size % bpc == 0 else "odd"))
+                    res.count("programs:grown-elsewhere")
+                    if findings:
+                        histcheck.report(res, c, ops, findings, "io", shrink_budget=10, seen=seen)
+
+
 def run(tier):
     res = Result("io")
     cursor_correspondence(res, tier)
@@ -171,6 +200,7 @@ def run(tier):
     nprog = 80 if tier == "quick" else 1200
     cfgs = configs(tier)
     seen = {}
+    grown_elsewhere(res, tier, cfgs, seen)
     for i in range(nprog):
         cfg = dict(cfgs[i % len(cfgs)])
         cfg["seed"] = i
